@@ -14,7 +14,7 @@ HARNESSES = [
          bounds='configurations senders x indications / callbacks / queue bound / start() calls: quick 1x1/1/unbounded/1, 1x2/2/unbounded/1, 2x1/1/maxsize 1/1, 1x1/1/unbounded/2 (restart) with 4 round-robin rounds, 1x3/1/maxsize 1/1 with 3 rounds '
                 '(every schedule in which each thread is scheduled at most 4 times, hence every schedule with <= 3 context switches); thorough adds 1x3 and 2x2 with bounded queues, 3x1 with 2 callbacks, a failing make_server() '
                 'and 5 rounds; at most 2 get() timeouts and 2 polling sleeps per run, loops unrolled accordingly (runs beyond are outside the bound and excluded by assumption)',
-         quick=dict(timeout=300, parts=5, reach_timeout=120, reach_parts=5), thorough=dict(timeout=3000, parts=12, reach_timeout=600, reach_parts=12)),
+         quick=dict(timeout=300, parts=5, reach_timeout=120, reach_parts=5), thorough=dict(timeout=3000, parts=13, reach_timeout=600, reach_parts=13)),
 ]
 CLAIM = dict(
     engine='own AST->IR compiler + z3 (QF_BV) round-robin sequentialisation (E3)',
